@@ -260,7 +260,9 @@ Qed.
 Lemma handle_cfg : forall r s m oracle, r_cfg (fst (handle r s m oracle)) = r_cfg r.
 Proof.
   intros r s m oracle. destruct m; cbn [handle].
-  - destruct (publish _ _ _ _ _ _ _ _ _ _ _) as [[b pg] o]. reflexivity.
+  - destruct (publish _ _ _ _ _ _ _ _ _ _ _) as [[b pg] o].
+    destruct (publish_aborts _ _ _ _); [|reflexivity].
+    pose proof (leave_cfg r (s_id s)) as C. destruct (leave r (s_id s)). exact C.
   - destruct (subscribe _ _ _ _ _ _ _) as [[b pg] o]. reflexivity.
   - destruct (unsubscribe _ _ _ _ _) as [[b pg] o]. reflexivity.
   - destruct (register _ _ _ _ _ _) as [[d o] mps].
@@ -272,7 +274,8 @@ Proof.
     + pose proof (leave_cfg r (s_id s)) as C. destruct (leave r (s_id s)). exact C.
     + rewrite run_meta_invocation_cfg. destruct (update_session_frame (r_set_dealer r d) callee) as (E & _). exact E.
   - destruct (cancel _ _ _ _ _). reflexivity.
-  - destruct (sync_yield _ _ _ _ _ _). reflexivity.
+  - destruct (sync_yield _ _ _ _ _ _ _) as [d o]. destruct (yield_aborts _ _ _ _ _); [|reflexivity].
+    pose proof (leave_cfg (r_set_dealer r d) (s_id s)) as C. destruct (leave (r_set_dealer r d) (s_id s)). exact C.
   - destruct (negb (ty =? c_INVOCATION)).
     + pose proof (leave_cfg r (s_id s)) as C. destruct (leave r (s_id s)). exact C.
     + destruct (sync_error _ _ _ _ _ _ _). reflexivity.
